@@ -14,7 +14,23 @@ def markers(chk, acc):
     args = [corelib.bindings_sx([(n, v) for (n, _, v) in g.params]) for g, _ in variants]
     calls = impl("core", ["(calls %s)" % quote(t) for _, t in variants])
     syms = impl("core", ["(dbgsyms %s %s)" % (quote(t), a) for (_, t), a in zip(variants, args)])
-    for (g, text), c, sy, a in zip(variants, calls, syms, args):
+    pss = impl("peg", ["(callspans %s)" % quote(t) for _, t in variants])
+    rng_of = []
+    oq = []
+    for (_, t), ps in zip(variants, pss):
+        r = [(int(a), int(b)) for a, b in parse_sx(ps)[1:]] if ps.startswith("(ok") else []
+        rng_of.append(r)
+        oq += ["(offsets %s %d %d)" % (quote(t), a, b) for a, b in r]
+    oa = iter(model("span", oq))
+    span_maps = []
+    for r in rng_of:
+        d = {}
+        for (a, b) in r:
+            o = next(oa)
+            if o.startswith("("):
+                d[tuple(parse_sx(o))] = (a, b)
+        span_maps.append(d)
+    for (g, text), c, sy, a, by_span in zip(variants, calls, syms, args, span_maps):
         ln = "(dbgsyms %s %s)" % (quote(text), a)
         if not c.startswith("(ok") or not sy.startswith("(ok"):
             if c.startswith("PANIC") or sy.startswith("PANIC"):
@@ -22,7 +38,14 @@ def markers(chk, acc):
             continue
         cl = parse_sx(c)[1:]
         spans = sorted({(k, sl, sc, el, ec) for (k, sl, sc, el, ec) in cl})
-        pred = model("span", ["(trackedlc %s %s %s %s %s)" % (quote(text), sl, sc, el, ec) for (_, sl, sc, el, ec) in spans])
+        # the call expressions as pest itself delimits them (byte ranges), placed on lines/columns by the model of pest's line_col
+        bad = [sp for sp in spans if sp[1:] not in by_span]
+        if bad:
+            chk.violation({"class": "tracked-span", "what": "span %s of a tracked call is not the span of a call expression || %s" % (bad[0], text[:160])},
+                          {"cmd": "core", "line": "(calls %s)" % quote(text), "program": text, "implementation": c[:1500], "pest_call_expressions": str(sorted(by_span))[:1500],
+                           "broken": "the span recorded for a tracked call is not the (line, column) range pest gives the call expression"})
+            continue
+        pred = model("span", ["(tracked %s %d %d)" % ((quote(text),) + by_span[sp[1:]]) for sp in spans], shards=1) if spans else []
         want = sorted((parse_sx(p) if p.startswith('"') else p, k) for (k, _, _, _, _), p in zip(spans, pred))
         ms = parse_sx(sy)[1:]
         got = []
